@@ -87,6 +87,20 @@ def replay(model, obligation):
                 want = ('ident', s) if f is protect_name else ('string', s)
                 if lex_one(f(s)) != want:
                     fails.append('%s(%r) = %r lexes as %r' % (f.__name__, s, f(s), lex_one(f(s))))
+    if 'index-target' in obligation:
+        import re
+        import types
+        from cassandra.metadata import SchemaParserV22
+        names = [n for n in (model.get('column_name'),) if isinstance(n, str) and n] + ['MixedCase', 'select', 'two words', 'q"uote', 'plain_1', '\u00e9t\u00e9']
+        for nm in names:
+            for kind, typ, opts in (('COMPOSITES', ('text', ()), None), ('COMPOSITES', ('map', ()), '{"index_keys": ""}'), ('COMPOSITES', ('frozen', ('list',)), None), ('CUSTOM', ('text', ()), '{"class_name": "x"}')):
+                ct = types.SimpleNamespace(typename=typ[0], subtypes=[types.SimpleNamespace(typename=t) for t in typ[1]])
+                col = types.SimpleNamespace(name=nm, _cass_type=ct, table=types.SimpleNamespace(keyspace_name='ks', name='tb'))
+                im = SchemaParserV22._build_index_metadata(col, {'index_name': 'i', 'index_type': kind, 'index_options': opts})
+                t = im.index_options['target']
+                inner = re.sub(r'^(keys|full)\((.*)\)$', r'\2', t, flags=re.S)
+                if lex_one(inner) != ('ident', nm):
+                    fails.append('index target for column %r (%s on %s): %r reads back as %r' % (nm, kind, typ[0], t, lex_one(inner)))
     if 'keyspace-switch' in obligation:
         import inspect
         from cassandra.connection import Connection
@@ -120,3 +134,106 @@ def replay(model, obligation):
     if not fails:
         fails = list(quoting_round_trip('quick', 0)['violations'])
     return {'reproduced': bool(fails), 'detail': '; '.join(fails[:2]) or 'no disagreement'}
+
+
+def lex_all(text):
+    """every identifier / string token of a CQL statement, read the way Cassandra's lexer reads them (bare words lower-cased; quoted names and string literals
+    with their doubled quotes undone; $$ ... $$ blocks as one string token); other characters are skipped"""
+    out, i, n = [], 0, len(text)
+    while i < n:
+        c = text[i]
+        if c in '"\'':
+            j, buf = i + 1, []
+            while j < n:
+                if text[j] == c:
+                    if j + 1 < n and text[j + 1] == c:
+                        buf.append(c)
+                        j += 2
+                        continue
+                    break
+                buf.append(text[j])
+                j += 1
+            out.append(('ident' if c == '"' else 'string', ''.join(buf)))
+            i = j + 1
+        elif text.startswith('$$', i):
+            j = text.find('$$', i + 2)
+            j = n if j < 0 else j
+            out.append(('string', text[i + 2:j]))
+            i = j + 2
+        elif c.isascii() and (c.isalpha() or c == '_'):
+            j = i
+            while j < n and text[j].isascii() and (text[j].isalnum() or text[j] == '_'):
+                j += 1
+            out.append(('ident', text[i:j].lower()))
+            i = j
+        else:
+            i += 1
+    return out
+
+
+AWKWARD = ['MixedCase', 'select', 'two words', 'q"uote', "it's", 'été', 'UPPER', '1digit', 'has-dash', 'table']
+
+
+def ddl_names_read_back(tier, seed):
+    """every name the driver puts into the DDL it generates (export_as_string / as_cql_query of keyspaces, tables, columns, indexes, user types, functions,
+    aggregates, triggers) reads back as that name: the statement, tokenised by the independent lexer, contains the name as an identifier token"""
+    import random
+    import types
+    from cassandra import metadata as md
+    from cassandra import cqltypes
+    rng = random.Random(seed)
+    fails, n = [], 0
+    rounds = 40 if tier == 'quick' else 400
+
+    def check(what, text, names, strings=()):
+        nonlocal n
+        n += 1
+        toks = lex_all(text)
+        idents = [v for k, v in toks if k == 'ident']
+        strs = [v for k, v in toks if k == 'string']
+        for nm in names:
+            if nm not in idents:
+                fails.append('%s: the name %r does not read back from %r' % (what, nm, text[:160]))
+                return
+        for sv in strings:
+            if sv not in strs:
+                fails.append('%s: the text %r does not read back from %r' % (what, sv, text[:160]))
+                return
+    for _ in range(rounds):
+        pick = lambda: rng.choice(AWKWARD) + rng.choice(['', '_x', ' y'])
+        ks, tb, c1, c2, c3, idx, ut, f1, fn, ag, tr = [pick() for _i in range(11)]
+        if len({c1, c2, c3}) < 3 or len({tb, ut}) < 2:
+            continue
+        km = md.KeyspaceMetadata(ks, True, 'SimpleStrategy', {'replication_factor': '1'})
+        check('CREATE KEYSPACE', km.as_cql_query(), [ks])
+        tm = md.TableMetadata(ks, tb)
+        cols = [md.ColumnMetadata(tm, c1, 'int'), md.ColumnMetadata(tm, c2, 'text'), md.ColumnMetadata(tm, c3, 'frozen<list<int>>')]
+        tm.partition_key, tm.clustering_key = [cols[0]], [cols[1]]
+        for c in cols:
+            tm.columns[c.name] = c
+        tm.options = {}
+        try:
+            check('CREATE TABLE', tm.as_cql_query(), [ks, tb, c1, c2, c3])
+        except Exception as e:
+            fails.append('CREATE TABLE for %r raised %r' % ((ks, tb, c1, c2, c3), e))
+        for target_col, kind, opts in ((c2, 'COMPOSITES', None), (c3, 'COMPOSITES', None), (c2, 'CUSTOM', '{"class_name": "org.example.Index"}')):
+            ct = types.SimpleNamespace(typename='frozen' if target_col is c3 else 'text', subtypes=[types.SimpleNamespace(typename='list')])
+            col = types.SimpleNamespace(name=target_col, _cass_type=ct, table=tm)
+            im = md.SchemaParserV22._build_index_metadata(col, {'index_name': idx, 'index_type': kind, 'index_options': opts})
+            check('CREATE INDEX (2.x schema)', im.as_cql_query(), [ks, tb, idx, target_col])
+        im3 = md.IndexMetadata(ks, tb, idx, 'COMPOSITES', {'target': md.protect_name(c2)})
+        check('CREATE INDEX', im3.as_cql_query(), [ks, tb, idx, c2])
+        um = md.UserType(ks, ut, [c1, c2], ['int', 'text'])
+        check('CREATE TYPE', um.as_cql_query(), [ks, ut, c1, c2])
+        body = "return 'x';"
+        fm = md.Function(ks, fn, ['int'], [f1], 'int', 'java', body, True, False, False, [])
+        check('CREATE FUNCTION', fm.as_cql_query(), [ks, fn, f1], [body])
+        am = md.Aggregate(ks, ag, ['int'], fn, 'int', None, '0', 'int', False)
+        check('CREATE AGGREGATE', am.as_cql_query(), [ks, ag, fn])
+        tg = md.TriggerMetadata(tm, tr, {'class': 'org.example.Trigger'})
+        check('CREATE TRIGGER', tg.as_cql_query(), [ks, tb, tr], ['org.example.Trigger'])
+        if len(fails) > 3:
+            break
+    return {'name': 'generated-ddl-names-read-back', 'kind': 'bounded', 'cases': n, 'evaluations': n, 'distinct_nontrivial': n,
+            'rule': 'names drawn from %d awkward shapes (mixed case, reserved words, spaces, quotes, non-ASCII, leading digit, dashes) x 3 suffixes for keyspace, table, columns, index, user type and its fields, function and its argument, aggregate, trigger; the generated statement tokenised by the independent lexer must contain each name as an identifier' % len(AWKWARD),
+            'bound': '%d statements, seed %d' % (n, seed), 'violations': fails[:3]}
